@@ -9,11 +9,22 @@ func moreGens() []struct {
 		name string
 		fn   func() string
 	}{
-		{"Encoding.v", genEncoding},   // C18
-		{"Conv.v", genConv},           // C02
-		{"EdiConsts.v", genEdiConsts}, // C07
-		{"Safety.v", genSafety},       // C03
-		{"DeclHash.v", genDeclHash},   // C13, C15
-		{"EvalShape.v", genEvalShape}, // C02, C13
+		{"Encoding.v", genEncoding},           // C18
+		{"Conv.v", genConv},                   // C02
+		{"EdiConsts.v", genEdiConsts},         // C07
+		{"Safety.v", genSafety},               // C03
+		{"DeclHash.v", genDeclHash},           // C13, C15
+		{"NodeReset.v", genNodeReset},         // C12
+		{"NodeOps.v", genNodeOps},             // C12
+		{"C08Facts.v", genC08Facts},           // C08
+		{"NavShape.v", genNavShape},           // C11
+		{"CsvCfg.v", genCsvCfg},               // C06
+		{"Occurs.v", genOccurs},               // C05
+		{"DateTime.v", genDateTime},           // C19
+		{"StreamSplit.v", genStreamSplit},     // C04, C17
+		{"EdiShape.v", genEdiShape},           // C07
+		{"ChildrenOrder.v", genChildrenOrder}, // C15
+		{"FaultWrap.v", genFaultWrap},         // C16
+		{"EvalShape.v", genEvalShape},         // C02, C13
 	}
 }
